@@ -117,3 +117,17 @@ def run(ctx):
     push = [b for b, t in f.calls() if (t.get("callee") or "").endswith("Vec::<T, A>::push")]
     ok = len(es) == 1 and es[0][2] == "InvalidInput" and len(push) == 1 and es[0][0] in cfg.reachable(f, push[0]) and any(e == "p2" and tr is True for (e, tr, g) in S.bool_facts_at(es[0][0]))
     ctx.check(ok, R, "error_after_mutation: error site, kind, reachability, guard fact", "", "engine self-test: error-after-mutation control not recognised", key=R + "|eam")
+    from .rules import alloc, loops
+    from . import cfg as _cfg
+    for name, want in (("alloc_unbounded", False), ("alloc_bounded", True)):
+        f = prog.fn("canary::" + name)
+        ss = alloc.sites(prog, f)
+        got = alloc.bound(prog, f, Sym(prog, f), ss[0][0], ss[0][3])[0] if ss else None
+        ctx.check(len(ss) == 1 and got == want, R, "%s: sized allocation" % name, "bounded" if got else "unbounded",
+                  "engine self-test: %s should be a sized allocation judged %s, got %s (%d sites)" % (name, "bounded" if want else "unbounded", got, len(ss)), key="%s|%s" % (R, name))
+    for name, want in (("loop_counted", False), ("loop_stuck", True), ("loop_iter", False)):
+        f = prog.fn("canary::" + name)
+        ls = _cfg.natural_loops(f)
+        got = [loops.cycle_without(f, h, body, loops.consuming(prog, f, body)) for h, body in ls.items()]
+        ctx.check(got == [want], R, "%s: loop progress" % name, "cycle without progress" if want else "every cycle makes progress",
+                  "engine self-test: %s should have one loop with non-progress cycle=%s, got %s" % (name, want, got), key="%s|%s" % (R, name))
